@@ -132,6 +132,12 @@ func RotateNodeCredentials(
 	if err != nil {
 		err := fmt.Errorf("error getting new fetch credentials response: %w", err)
 		opts.WithLogger.Error(err.Error(), "op", op)
+		// AuthorizeNode registered the new key just above (it refuses keys that
+		// are registered already); a rotation that is refused must not leave
+		// that registration behind
+		if rbErr := removeNewRegistration(ctx, storage, fetchRequest); rbErr != nil {
+			opts.WithLogger.Error(rbErr.Error(), "op", op)
+		}
 		return nil, fmt.Errorf("(%s) %s", op, err.Error())
 	}
 
@@ -146,4 +152,22 @@ func RotateNodeCredentials(
 	return &types.RotateNodeCredentialsResponse{
 		EncryptedFetchNodeCredentialsResponse: encryptedResp,
 	}, nil
+}
+
+// removeNewRegistration removes the node information registered for the key in
+// the given fetch request
+func removeNewRegistration(ctx context.Context, storage nodeenrollment.Storage, req *types.FetchNodeCredentialsRequest) error {
+	const op = "nodeenrollment.rotation.removeNewRegistration"
+	reqInfo := new(types.FetchNodeCredentialsInfo)
+	if err := proto.Unmarshal(req.Bundle, reqInfo); err != nil {
+		return fmt.Errorf("(%s) error unmarshaling request bundle: %w", op, err)
+	}
+	keyId, err := nodeenrollment.KeyIdFromPkix(reqInfo.CertificatePublicKeyPkix)
+	if err != nil {
+		return fmt.Errorf("(%s) error deriving key id: %w", op, err)
+	}
+	if err := storage.Remove(ctx, &types.NodeInformation{Id: keyId}); err != nil {
+		return fmt.Errorf("(%s) error removing node information registered for the refused rotation: %w", op, err)
+	}
+	return nil
 }
